@@ -18,7 +18,7 @@ import (
 // size of the containing block, so the page box has the declared size.
 func c12PageBox(c *core.Check) {
 	p := c.Prog
-	r := c.Rule("R5", "layout.pageWidthOrHeight, folded symbolically for the 8 combinations of `auto` among the content size and the two margins of a page (or margin) box along one axis: an auto content size takes what the margins (auto ones being 0), padding and border leave of the page size; two auto margins share the remaining space equally; one auto margin takes it; nothing else changes — so the page box fills the declared page size exactly whenever a value is auto", 8)
+	r := c.Rule("R5", "layout.pageWidthOrHeight, folded symbolically for the 8 combinations of `auto` among the content size and the two margins of a page (or margin) box along one axis: an auto content size takes what the margins (auto ones being 0), padding and border leave of the page size; two auto margins share the remaining space equally; one auto margin takes it; nothing else changes — so the page box fills the declared page size exactly whenever a value is auto", 6)
 	fn := p.Fn("html/layout", "pageWidthOrHeight")
 	pk := p.ByPath["html/layout"]
 	if fn == nil || pk == nil || pk.Types.Scope().Lookup("orientedBox") == nil {
